@@ -54,6 +54,26 @@ Theorem C17_pinned_get_page_read_caps : forall (s : stack P A R) h arg fuel,
   exists r, invoke P A R false s h arg fuel = Done R r /\ invoke_spec P A R s h arg = Some r.
 Proof. exact (passthrough_pinned_ok P A R). Qed.
 
+(** the in-library invocation sites (CbModel.library_sites, transcribed from
+    the sources and compared with a scan of the sources on every check) all
+    call the top record's function with that same record ... *)
+Theorem C17_library_sites_pass_top_record :
+  Forall (fun hs => snd hs = PassSame) library_sites.
+Proof. exact library_sites_pass_same. Qed.
+
+(** ... so stacking any number of layers that override nothing, with any
+    private data, on a context — in particular on the one a dump object hands
+    out — does not change what any call site obtains: the first implementation
+    below, called with its own record *)
+Theorem C17_empty_layers_change_nothing_at_call_sites :
+  forall (privs : list P) (s : stack P A R) h arg fuel,
+  base_complete P A R s -> length s < fuel ->
+  invoke_site P A R true (map (empty_layer P A R) privs ++ s) h arg (length privs + fuel) PassSame
+  = invoke_site P A R true s h arg fuel PassSame /\
+  exists r, invoke_site P A R true s h arg fuel PassSame = Done R r /\
+            invoke_spec P A R s h arg = Some r.
+Proof. exact (empty_layers_change_nothing P A R). Qed.
+
 End C17.
 
 Print Assumptions C17_passthrough_all_hooks.
@@ -62,6 +82,8 @@ Print Assumptions C17_add_cb_changes_nothing.
 Print Assumptions C17_add_del_restores.
 Print Assumptions C17_del_restores_anywhere.
 Print Assumptions C17_pinned_get_page_read_caps.
+Print Assumptions C17_library_sites_pass_top_record.
+Print Assumptions C17_empty_layers_change_nothing_at_call_sites.
 
 (** defect 3 of the pinned tree: with one pass-through layer the lower
     implementation of reg_value is handed the upper layer's private data ... *)
@@ -79,6 +101,18 @@ Theorem C17_pinned_diverges_refuted : forall fuel,
          HSymValue tt fuel = OutOfFuel _.
 Proof. exact pinned_diverges. Qed.
 Print Assumptions C17_pinned_diverges_refuted.
+
+(** a call site that passes another record than the one whose function it
+    calls (e.g. the dump object's own record under an added layer) is wrong
+    even with the repaired defaults: the dump object's implementation is
+    skipped *)
+Theorem C17_site_passing_other_record_refuted :
+  invoke_site nat unit (nat * nat) true [demo_empty 2; demo_impl 1; demo_base] HSymValue tt 8
+              (PassOther 1) = Done _ (0, 0) /\
+  invoke_site nat unit (nat * nat) true [demo_impl 1; demo_base] HSymValue tt 8 (PassOther 0)
+    = Done _ (1, 1).
+Proof. exact site_other_record_wrong. Qed.
+Print Assumptions C17_site_passing_other_record_refuted.
 
 (** non-vacuity: a concrete three-deep stack over a complete base; every hook
     answers with the right layer and that layer's own private data *)
